@@ -1047,11 +1047,16 @@ where
     }
 
     fn get_pragma(&mut self) -> Ident {
-        self.pragma
-            .as_ref()
-            .or(self.options.pragma.as_ref())
-            .map(|name| quote_ident!(name.as_str()).into())
-            .unwrap_or_else(|| self.import_from_vue("createVNode"))
+        match self.pragma.as_ref().or(self.options.pragma.as_ref()) {
+            Some(name) if util::is_valid_pragma(name) => quote_ident!(name.as_str()).into(),
+            Some(name) => {
+                // it would be printed as it is: `h(`, `h x`, `1`, `` are not something that can be called
+                let message = format!("`{name}` can't be used as JSX pragma: it is not an identifier.");
+                HANDLER.with(|handler| handler.span_err(DUMMY_SP, &message));
+                self.import_from_vue("createVNode")
+            }
+            None => self.import_from_vue("createVNode"),
+        }
     }
 
     fn search_jsx_pragma(&mut self, span: Span) {
